@@ -42,7 +42,12 @@ func (db *DB) createCollections(
 		newSchemas[i] = def.Definition.Schema
 	}
 
-	err = setSchemaIDs(newSchemas)
+	existingSchemas := make([]client.SchemaDescription, len(existingDefinitions))
+	for i, def := range existingDefinitions {
+		existingSchemas[i] = def.Schema
+	}
+
+	err = setSchemaIDs(newSchemas, existingSchemas...)
 	if err != nil {
 		return nil, err
 	}
@@ -58,7 +63,7 @@ func (db *DB) createCollections(
 		newDefinitions[i] = def.Definition
 	}
 
-	setFieldKinds(newDefinitions)
+	setFieldKinds(newDefinitions, existingDefinitions...)
 
 	err = db.validateNewCollection(
 		ctx,
@@ -117,8 +122,11 @@ func (db *DB) createCollections(
 	return returnDescriptions, nil
 }
 
-func setFieldKinds(definitions []client.CollectionDefinition) {
+func setFieldKinds(definitions []client.CollectionDefinition, existingDefinitions ...client.CollectionDefinition) {
 	schemasByName := map[string]client.SchemaDescription{}
+	for _, def := range existingDefinitions {
+		schemasByName[def.Schema.Name] = def.Schema
+	}
 	for _, def := range definitions {
 		schemasByName[def.Schema.Name] = def.Schema
 	}
